@@ -54,6 +54,8 @@ type pwPath struct {
 	unknown   map[string]bool                                 // objects overwritten as a whole by a value that is not tracked
 	loadAt    map[ssa.Value]int                               // load -> number of events recorded when it (last) executed
 	marks     []pwMark                                        // every re-entry of a block on this path
+	// copies: instruction of the program -> its per-activation copies made on this path (see copyInstr)
+	copies map[ssa.Instruction][]ssa.Instruction
 	// deferSpans: [from, to) ranges of events that happened while a deferred call ran at a function's exit
 	deferSpans [][2]int
 }
@@ -176,6 +178,32 @@ type pwDeferRec struct {
 
 // pwOrigin: copy of an instruction -> the instruction of the program it was made from
 var pwOrigin sync.Map
+
+// referrers: the instructions executed on this path that use v (for a value of the program: its
+// referrers; for a per-activation copy: the copies of the original's referrers that take the copy).
+func (p *pwPath) referrers(v ssa.Value) []ssa.Instruction {
+	ov := origValue(v)
+	rp := ov.Referrers()
+	if rp == nil {
+		return nil
+	}
+	if ov == v {
+		return *rp
+	}
+	var out []ssa.Instruction
+	for _, ref := range *rp {
+		for _, c := range p.copies[ref] {
+			var buf [8]*ssa.Value
+			for _, op := range c.Operands(buf[:0]) {
+				if op != nil && *op == v {
+					out = append(out, c)
+					break
+				}
+			}
+		}
+	}
+	return out
+}
 
 // forgetProgram drops what the process-wide caches hold about a program that is no longer analysed
 // (the corpus replay analyses many variants of the repository one after the other).
@@ -344,6 +372,12 @@ func (p *pwPath) clone() *pwPath {
 	}
 	q.marks = append([]pwMark(nil), p.marks...)
 	q.deferSpans = append([][2]int(nil), p.deferSpans...)
+	if len(p.copies) > 0 {
+		q.copies = make(map[ssa.Instruction][]ssa.Instruction, len(p.copies))
+		for k, v := range p.copies {
+			q.copies[k] = v[:len(v):len(v)]
+		}
+	}
 	q.decisions = append([]pwDecision(nil), p.decisions...)
 	q.events = append([]ssa.Instruction(nil), p.events...)
 	q.evDecided = append([]int(nil), p.evDecided...)
@@ -747,6 +781,13 @@ func (pw *pathWalker) run(s *pwState) []*pwState {
 					return nil
 				}
 				s.exiting = b
+				// the second time round works on private copies of the instructions, so that what the first
+				// iteration computed keeps its meaning (a loop-carried variable is otherwise rebound under it)
+				if s.frame.sub == nil {
+					nf := *s.frame
+					nf.sub = map[ssa.Value]ssa.Value{}
+					s.frame = &nf
+				}
 			}
 			// phis: parallel assignment from the incoming edge
 			pi := -1
@@ -794,7 +835,12 @@ func (pw *pathWalker) run(s *pwState) []*pwState {
 				switch ins.(type) {
 				case *ssa.Phi, *ssa.DebugRef:
 				default:
+					o := origInstr(ins)
 					ins = copyInstr(ins, s.frame.sub)
+					if s.p.copies == nil {
+						s.p.copies = map[ssa.Instruction][]ssa.Instruction{}
+					}
+					s.p.copies[o] = append(s.p.copies[o], ins)
 				}
 			}
 			if v, isVal := ins.(ssa.Value); isVal {
